@@ -1,6 +1,7 @@
 """C08 - value semantics: arguments and receivers not mutated, results not aliased."""
 from .. import obs as O
-from .common import Contract, ansi_values, history, run_cases, tier_sizes, safe_obs, is_ansi
+from .common import (Contract, ansi_values, history, run_cases, tier_sizes, safe_obs, is_ansi, small_scope_values,
+                     small_scope_on)
 
 PROP = 'C08'
 RULE = ('case = (a) every outermost public call made by a random history: receiver (unless the call is an in-place '
@@ -351,7 +352,73 @@ def drive(ctx, mon, tier, only_case=None):
     L = ctx.L
     sz = tier_sizes(tier)
 
+    def small_scope(rng):
+        # bounded-exhaustive part: every small-scope value x every producing operation; then the result is wiped
+        # (remove_formatting touches every marker) and the source re-observed, and the other way round
+        m = small_scope_on(ctx, tier)
+        nv = 0
+        producers = [lambda v: v[1:3], lambda v: v[:2], lambda v: v[2:], lambda v: v[0:4], lambda v: v[3], lambda v: v.copy(),
+                     lambda v: L.AnsiString(v), lambda v: v + 'x', lambda v: v + v, lambda v: L.AnsiString.join(v, v[1:]),
+                     lambda v: v.split('b'), lambda v: v.partition('c'), lambda v: v.partition('x'), lambda v: v.clip(1, 3),
+                     lambda v: v.strip('a'), lambda v: v.ljust(6), lambda v: v.center(7, '*'), lambda v: v.upper(),
+                     lambda v: v.replace('b', 'B'), lambda v: v.replace('x', 'y'), lambda v: v.replace('abcd', L.AnsiString('Q', '1')),
+                     lambda v: list(v), lambda v: v.removeprefix('a'), lambda v: v.splitlines(), lambda v: L.AnsiStr(v)]
+        for v, _ in small_scope_values(L, m, ctx.shard, ctx.extra.get('nshards', 1)):
+            nv += 1
+            for pi, prod in enumerate(producers):
+                with mon.quiet():
+                    src = L.AnsiString(v)
+                    res = prod(src)
+                    results = [r for r in flat_results(L, res) if isinstance(r, L.AnsiString)]
+                    if not results:
+                        continue
+                    ctx.ev('small-scope-alias')
+                    if any(r is src for r in results) or len({id(r) for r in results}) != len(results):
+                        ctx.violation('result-is-source-or-shared', {'producer': pi, 'value': O.observe(src).describe()},
+                                      mech='aliasing-small-scope')
+                        continue
+                    s0 = Snap(L, src)
+                    r0 = [Snap(L, r) for r in results]
+                    wipe = (nv + pi) % 3
+                    for r in results:
+                        if wipe == 0:
+                            r.remove_formatting()
+                        elif wipe == 1:
+                            r.apply_formatting('[95;7', 0, None, topmost=False)
+                        else:
+                            r += L.AnsiString('!', 'bg_white')
+                            r.assign_str('zz')
+                    d = s0.diff(L)
+                    if d:
+                        ctx.violation('source-changed-by-mutating-result', {'producer': pi, 'what': d,
+                                                                            'source_before': s0.o.describe()},
+                                      mech='aliasing-small-scope')
+                        continue
+                    # the other way round on fresh objects
+                    src = L.AnsiString(v)
+                    res = prod(src)
+                    results = [r for r in flat_results(L, res) if is_ansi(L, r)]
+                    r0 = [Snap(L, r) for r in results]
+                    if wipe == 0:
+                        src.remove_formatting()
+                    elif wipe == 1:
+                        src.apply_formatting('[95;7', 0, None, topmost=False)
+                    else:
+                        src += L.AnsiString('!', 'bg_white')
+                        src.assign_str('zz')
+                    for sn in r0:
+                        d = sn.diff(L)
+                        if d:
+                            ctx.violation('result-changed-by-mutating-source', {'producer': pi, 'what': d,
+                                                                                'result_before': sn.o.describe()},
+                                          mech='aliasing-small-scope')
+                            break
+        ctx.extra['n_small_scope_values'] = nv
+
     def body(rng, ex, case):
+        if case == 0:
+            small_scope(rng)
+            return
         profile = 'mixed' if rng.random() < 0.3 else 'wf'
         hg = history(L, rng, ex, rng.randint(2, sz['nops']), sz['maxlen'], profile, WEIGHTS)
         for v in ansi_values(L, ex)[-5:]:
